@@ -137,6 +137,7 @@ func Validate(b *spec.Built, value any, opts ...z.ExecOption) *Outcome {
 
 func ValidatePtr(b *spec.Built, valPtr reflect.Value, opts ...z.ExecOption) (o *Outcome) {
 	o = &Outcome{DestVal: valPtr}
+	obs.AllocEmb(valPtr)
 	defer func() {
 		if r := recover(); r != nil {
 			o.Panicked, o.Panic, o.Stack = true, r, string(debug.Stack())
